@@ -88,12 +88,27 @@ Definition sc_commit_wait_other_header_first : list event :=
              EvView (sv 1 0 3 (svs 30 30 [([8], 20); ([7], 10)] [([7], 30)]) [sph 8]) None;
              EvView (sv 1 0 4 (svs 30 30 [([8], 20); ([7], 10)] [([7], 30)]) [sph 8; sph 7]) None].
 
+(** three heights finalized live with a validator-set change in between (the finalization of height 2 drops a
+    validator: the set of height 4), then a stop and a restart at height 4 and the local validator proposes: the
+    previous-commit proof it has to finalize was signed under the set of height 3 (= the finalization of height 1),
+    which the restart must reload from the right finalization *)
+Definition svw (h ver : N) (pc : list (list N * N)) (phs : list ph) (ph0 : hash) (pvs : N) : view :=
+  mkView h 0 ver (svs 0 (fold_left (fun a e => a + snd e) pc 0) [] pc) phs ph0 pvs.
+Definition one_height (h b prev pvs fvs : N) : list event :=
+  [EvRERespVRV (svw h 1 [] [] [prev] pvs);
+   EvView (svw h 2 [([b], 30)] [mkPh [b] genesis_ash genesis_vs genesis_vs [100 + b] false] [prev] pvs) None;
+   EvFinResp h 0 [b] fvs [2]; EvTimer].
+Definition sc_restart_after_valset_change : list event :=
+  [EvStart] ++ one_height 1 7 0 0 15 ++ one_height 2 8 7 15 13 ++ one_height 3 9 8 15 15
+  ++ [EvRERespVRV (svw 4 1 [] [] [9] 15); EvStop; EvStart; EvRERespVRV (svw 4 1 [] [] [9] 15); EvProposal [51]].
+
 Definition scenarios : list (list event) :=
   [sc_nil_prevote_restart_block; sc_block_prevote_restart_nil; sc_block_prevote_restart_other;
    sc_nil_precommit_restart_block; sc_block_precommit_restart_nil; sc_proposal_restart_other_proposal;
    sc_prevote_delay_then_commit; sc_prevote_delay_then_nil_commit; sc_prevote_delay_then_precommit_delay;
    sc_prevote_delay_elapses; sc_precommit_delay_then_commit; sc_stale_round_nil_quorum; sc_future_round_view;
-   sc_stale_step_after_committed_header; sc_commit_wait_other_header_first].
+   sc_stale_step_after_committed_header; sc_commit_wait_other_header_first;
+   sc_restart_after_valset_change].
 
 Definition scenario_report : list (list (list N * (list (list N) * list (list N)))) :=
   map (fun es => combine (map enc_event es) (map project (run_events (sm0 true) es))) scenarios.
